@@ -219,6 +219,43 @@ func (g *Gen) nonNil(t reflect.Type, depth int) reflect.Value {
 // FP is the fingerprint of a value: deep for values, identity for pointers, maps and chans,
 // behaviour (the tagged results) for funcs. Two values have equal fingerprints iff the mock
 // handed the same value through.
+// ID is the identity of a value where Go values have one beyond their content: the address a
+// pointer, map or channel refers to, the backing array (and length) of a non-empty slice. "" for
+// everything else (and for interface values: the identity of what they hold).
+func ID(v reflect.Value) string {
+	for v.IsValid() && v.Kind() == reflect.Interface {
+		if v.IsNil() {
+			return ""
+		}
+		v = v.Elem()
+	}
+	if !v.IsValid() {
+		return ""
+	}
+	switch v.Kind() {
+	case reflect.Ptr, reflect.Map, reflect.Chan, reflect.UnsafePointer:
+		if v.IsNil() {
+			return ""
+		}
+		return fmt.Sprintf("%s@%x", v.Kind(), v.Pointer())
+	case reflect.Slice:
+		if v.Len() == 0 {
+			return ""
+		}
+		return fmt.Sprintf("slice@%x+%d", v.Pointer(), v.Len())
+	}
+	return ""
+}
+
+// IDs lists the identities of the values that have one (position: identity).
+func IDs(vs []reflect.Value) []string {
+	out := make([]string, len(vs))
+	for i := range vs {
+		out[i] = ID(vs[i])
+	}
+	return out
+}
+
 func FP(v reflect.Value) string {
 	if !v.IsValid() {
 		return "invalid"
